@@ -226,6 +226,39 @@ def _do(c, op, ctx):
         return fp(getattr(c, name[1:])())
     if name == 'dlist':
         return fp([fp(x) for x in c])
+    if name in ('dextend', 'dextendleft'):
+        getattr(c, name[1:])([vals.dec(x) for x in op['vs']])
+        return 'None'
+    if name == 'diadd':
+        c += [vals.dec(x) for x in op['vs']]
+        return 'None'
+    if name == 'drotate':
+        c.rotate(op['n'])
+        return 'None'
+    if name == 'dreverse':
+        c.reverse()
+        return 'None'
+    if name == 'dclear':
+        c.clear()
+        return 'None'
+    if name == 'dsetitem':
+        c[op['i']] = _value(op, ctx)
+        return 'None'
+    if name == 'ddelitem':
+        del c[op['i']]
+        return 'None'
+    if name == 'dremove':
+        c.remove(_value(op, ctx))
+        return 'None'
+    if name == 'dmaxlen':
+        c.maxlen = op['n']
+        return 'None'
+    if name == 'iupdate':
+        c.update([(vals.dec(a), vals.dec(b)) for a, b in op['items']])
+        return 'None'
+    if name == 'iclear':
+        c.clear()
+        return 'None'
     # Index
     if name == 'setdefault':
         return fp(c.setdefault(vals.dec(op['k']), _value(op, ctx)))
